@@ -83,6 +83,7 @@ func (e *Eval) doCall(fr *Frame, cc *ssa.CallCommon, args []Val, fnval Val, st *
 		}
 	}
 	e.atClauses(fr, cc, name, site, "ensures", args, oc.Results, oc.St, st, and(cur, oc.NormalCond))
+	e.atClauses(fr, cc, name, site, "assume", args, oc.Results, oc.St, st, and(cur, oc.NormalCond))
 	return oc
 }
 
@@ -154,6 +155,9 @@ func (e *Eval) static(fr *Frame, cc *ssa.CallCommon, fn *ssa.Function, args []Va
 	var pkg *ssa.Package
 	if fn.Pkg != nil {
 		pkg = fn.Pkg
+	}
+	if fn.Pkg != nil && strings.HasPrefix(fn.Pkg.Pkg.Path(), modPath) {
+		e.ghostCount(st, "$c."+relName(fn))
 	}
 	if k.Wrapper != nil {
 		return e.applyWrapper(fr, k, fn, pkg, pnames, ptypes, args, st, cur, site)
@@ -252,10 +256,11 @@ func (e *Eval) applyContract(fr *Frame, k *Contract, pkg *ssa.Package, pnames []
 			c.Unsupported("%v", err)
 			continue
 		}
-		g := env.evalBool(ex)
-		e.oblige(fmt.Sprintf("requires@%s/%s", site, clauseLabel(cl, k.Requires)), "requires@call", cl.Props, cur, g, cl.Text, cl.Where)
+		if len(cl.Props) > 0 {
+			e.oblige(fmt.Sprintf("requires@%s/%s", site, clauseLabel(cl, k.Requires)), "requires@call", cl.Props, cur, env.evalGoal(ex), cl.Text, cl.Where)
+		}
 		// after the check the caller may rely on it
-		c.Assert(implies(cur, g))
+		c.Assert(implies(cur, env.evalBool(ex)))
 	}
 	post := st.Clone()
 	e.havocFrame(k, env, post, pre)
@@ -343,6 +348,13 @@ func (e *Eval) havocFrame(k *Contract, env *Env, post, pre *State) {
 		switch {
 		case m == "*":
 			e.havocAll(post)
+		case strings.HasPrefix(m, "$") && strings.HasSuffix(m, "*"):
+			for comp := range c.compSort {
+				if strings.HasPrefix(comp, m[:len(m)-1]) {
+					c.Havoc(post, comp)
+				}
+			}
+			post.ghostWild = append(post.ghostWild, m[:len(m)-1])
 		case strings.HasPrefix(m, "$"):
 			c.DeclComp(m, c.compSortOr(m, "Int"))
 			c.Havoc(post, m)
@@ -471,9 +483,8 @@ func (e *Eval) applyWrapper(fr *Frame, k *Contract, fn *ssa.Function, pkg *ssa.P
 	}
 	for _, cl := range k.Requires {
 		if ex, err := cl.Parse(); err == nil {
-			g := env.evalBool(ex)
-			e.oblige(fmt.Sprintf("requires@%s/%s", site, clauseLabel(cl, k.Requires)), "requires@call", cl.Props, cur, g, cl.Text, cl.Where)
-			c.Assert(implies(cur, g))
+			e.oblige(fmt.Sprintf("requires@%s/%s", site, clauseLabel(cl, k.Requires)), "requires@call", cl.Props, cur, env.evalGoal(ex), cl.Text, cl.Where)
+			c.Assert(implies(cur, env.evalBool(ex)))
 		}
 	}
 	// ops: resolve mutex ids in the pre state
@@ -613,8 +624,7 @@ func (e *Eval) callParamFn(fr *Frame, cc *ssa.CallCommon, pname string, args []V
 			pnames = append(pnames, n)
 			ptypes = append(ptypes, sig.Params().At(i).Type())
 		}
-		e.ghostCount(st, "$ncalls")
-		e.ghostCount(st, "$n."+pname)
+		e.ghostCount(st, "$c."+pname)
 		return e.applyContract(fr, k, e.root.fn.Pkg, pnames, ptypes, k.Results, sig, args, st, cur, site)
 	}
 	c.Unsupported("call through function parameter %s without contract in %s", pname, fr.fn)
@@ -635,7 +645,7 @@ func (e *Eval) atClauses(fr *Frame, cc *ssa.CallCommon, name, site, kind string,
 			e.c.Unsupported("%v", err)
 			continue
 		}
-		env := e.newEnv(e.root.fn.Pkg, st, pre)
+		env := e.newEnv(e.root.fn.Pkg, st, e.entry)
 		e.bindParams(env, e.root)
 		sig := cc.Signature()
 		off := 0
@@ -656,7 +666,17 @@ func (e *Eval) atClauses(fr *Frame, cc *ssa.CallCommon, name, site, kind string,
 		for i := range results {
 			env.bind(fmt.Sprintf("ret%d", i), results[i], sig.Results().At(i).Type())
 		}
-		g := env.evalBool(ex)
+		var g string
+		if kind == "assume" {
+			g = env.evalBool(ex)
+		} else {
+			g = env.evalGoal(ex)
+		}
+		if kind == "assume" {
+			e.c.Assert(implies(cur, g))
+			e.c.Assume("assumed at call of " + name + " in " + e.rootKey + ": " + at.Clause.Text)
+			continue
+		}
 		lbl := at.Clause.Label
 		if lbl == "" {
 			lbl = "at"
